@@ -203,6 +203,50 @@ def _bed_expected(i, sym):
     return out
 
 
-CASES = [BedText(1), BedText(3)]
+class TranscriptBedCutChunk(Case):
+    """chromosome-coordinate BED12 of a coding transcript built on a sequence chunk that cuts it anywhere (possibly
+    holding none of its CDS bases): the record is the one of the whole-chromosome transcript - all exons, thick range =
+    CDS bounds (a chunk-relative view changes no chromosome-level answer)."""
+    props = ("C14", "C07")
+    func = TRANSCRIPT + ".to_bed12"
+
+    def __init__(self, n):
+        self.n = n
+        self.shard_depth = 3
+        self.name = f"TranscriptInterval.to_bed12[{n} exons, coding, chromosome coordinates, chunk cutting the transcript]"
+        self.call = "tx.to_bed12(chromosome_relative_coordinates=True)"
+        self.ensures = {
+            "format-invariants": lambda i, r: bed_invariants(r),
+            "decodes-to-all-exons": lambda i, r: And(
+                len(decoded_blocks(r)) == len(i.expected),
+                *[And(a[0] == b[0], a[1] == b[1]) for a, b in zip(decoded_blocks(r), i.expected)]),
+            "thick-is-cds-bounds": lambda i, r: And(r.thick_start == i.thick[0], r.thick_end == i.thick[1]),
+            "strand-name-chrom": lambda i, r: And(_same_enum(r.strand, i.strand), r.name == "tx1", r.chrom == "chr1"),
+        }
+
+    def inputs(self, S):
+        starts, ends = block_lists(S, "tx", self.n)
+        strand = strand_of(S, "strand")
+        cp, cs, ce = chunk_parent(S)
+        S.assume(Or(*[Max(starts[k], cs) < Min(ends[k], ce) for k in range(self.n)]))  # some exon base on the chunk
+        cds_s, cds_e, c0, c1 = cds_in_exons(S, starts, ends)
+        zero = S.enum_const(FRAME, "ZERO")
+        tx = S.new(TRANSCRIPT, starts, ends, strand, sequence_name="chr1", transcript_symbol="tx1",
+                   parent_or_seq_chunk_parent=cp, cds_starts=cds_s, cds_ends=cds_e, cds_frames=[zero] * self.n)
+        return NS(tx=tx, strand=strand, expected=list(zip(starts, ends)), thick=(c0, c1))
+
+    def samples(self, rng):
+        d = sample_blocks(rng, "tx", self.n, lo=2, length=(2, 3, 5))
+        d["strand"] = rng.choice(["PLUS", "MINUS"])
+        sample_cds(rng, d)
+        cs = rng.randint(0, d["tx_ends"][-1] - 1)
+        ce = rng.randint(cs + 1, d["tx_ends"][-1] + 3)
+        d.update(chunk_start=cs, chunk_end=ce, chunk_seq="".join(rng.choice("ACGT") for _ in range(ce - cs)))
+        return d
+
+    observe = FeatureBed.observe
+
+
+CASES = [BedText(1), BedText(3), TranscriptBedCutChunk(1), TranscriptBedCutChunk(2)]
 CASES += [FeatureBed(n, c) for n in (1, 2, 3) for c in (False, True)]
 CASES += [TranscriptBed(n, c, k) for n in (1, 2, 3) for c in (False, True) for k in (False, True)]
